@@ -397,11 +397,18 @@ func VsymC18Envelope() {
 		}
 	}
 
-	s, err := NewPluginSigner(pl, c18KeyID, nil)
+	// the signer carries a plugin configuration of its own; the caller's overrides one entry of it
+	signerCfg := map[string]string{"region": "r", "profile": "default"}
+	callerCfg := map[string]string{"profile": "hotfix"}
+	s, err := NewPluginSigner(pl, c18KeyID, signerCfg)
 	if err != nil {
 		panic("NewPluginSigner: " + err.Error())
 	}
-	opts := notation.SignerSignOptions{SignatureMediaType: reqType}
+	opts := notation.SignerSignOptions{SignatureMediaType: reqType, PluginConfig: callerCfg}
+	defer func() {
+		vr.Assert(len(callerCfg) == 1 && callerCfg["profile"] == "hotfix", "signing leaves the caller's plugin configuration map as it was")
+		vr.Assert(len(signerCfg) == 2 && signerCfg["region"] == "r" && signerCfg["profile"] == "default", "signing leaves the signer's own plugin configuration as it was")
+	}()
 	var sig []byte
 	var info *signature.SignerInfo
 	var genAlg digest.Algorithm
@@ -436,6 +443,7 @@ func VsymC18Envelope() {
 	vr.Assert(len(envkit.Env.VerifiedOK) == 1 && envkit.Env.VerifyCalls == 1, "the plugin's envelope was verified")
 	vr.Assert(info == &content.SignerInfo, "signer info is the verified envelope's")
 	r := pl.envReqs[0]
+	vr.Assert(len(r.PluginConfig) == 2 && r.PluginConfig["region"] == "r" && r.PluginConfig["profile"] == "hotfix", "the plugin receives the signer's configuration with the caller's entries on top")
 	vr.Assert(r.KeyID == c18KeyID && r.SignatureEnvelopeType == reqType && r.PayloadType == c18PayloadType && r.ContractVersion == plugin.ContractVersion, "generate-envelope request carries key id, format and payload type")
 	vr.Assert(vr.JSONEqual(r.Payload, c18WantPayload(desc)), "the payload handed to the plugin is the request reduced to media type, digest, size and annotations")
 	vr.Assert(len(s.PluginAnnotations()) == len(pl.envResp.Annotations), "plugin annotations are the plugin's")
@@ -516,11 +524,17 @@ func VsymC18Raw() {
 			pl.sigResp.Signature = vr.Token("rawSignature")
 		}
 	}
-	s, err := NewPluginSigner(pl, c18KeyID, nil)
+	signerCfg := map[string]string{"region": "r", "profile": "default"}
+	callerCfg := map[string]string{"profile": "hotfix"}
+	s, err := NewPluginSigner(pl, c18KeyID, signerCfg)
 	if err != nil {
 		panic("NewPluginSigner: " + err.Error())
 	}
-	sig, info, err := s.Sign(context.Background(), desc, notation.SignerSignOptions{SignatureMediaType: reqType})
+	defer func() {
+		vr.Assert(len(callerCfg) == 1 && callerCfg["profile"] == "hotfix", "signing leaves the caller's plugin configuration map as it was")
+		vr.Assert(len(signerCfg) == 2 && signerCfg["region"] == "r" && signerCfg["profile"] == "default", "signing leaves the signer's own plugin configuration as it was")
+	}()
+	sig, info, err := s.Sign(context.Background(), desc, notation.SignerSignOptions{SignatureMediaType: reqType, PluginConfig: callerCfg})
 	vr.Note("err=" + c18Bool(err != nil))
 	if err != nil {
 		vr.Assert(sig == nil && info == nil, "an error comes without signature and signer info")
@@ -536,6 +550,7 @@ func VsymC18Raw() {
 	vr.Assert(len(pl.envReqs) == 0 && len(pl.sigReqs) == 1 && len(pl.descReqs) == 1, "one describe-key and one generate-signature call, no generate-envelope call")
 	vr.Assert(pl.descReqs[0].KeyID == c18KeyID, "describe-key asked for the requested key")
 	r := pl.sigReqs[0]
+	vr.Assert(len(r.PluginConfig) == 2 && r.PluginConfig["region"] == "r" && r.PluginConfig["profile"] == "hotfix" && len(pl.descReqs[0].PluginConfig) == 2 && pl.descReqs[0].PluginConfig["profile"] == "hotfix", "the plugin receives the signer's configuration with the caller's entries on top")
 	vr.Assert(r.KeyID == c18KeyID && string(r.KeySpec) == c18KeySpecs[ksIdx] && string(r.Hash) == c18Hashes[ksIdx] && r.ContractVersion == plugin.ContractVersion, "generate-signature request carries the key id, the described key spec and the hash bound to it")
 	vr.Assert(string(r.Payload) == string(envkit.Env.ToBeSigned), "the plugin signs what the envelope asked to be signed")
 	vr.Assert(envkit.Env.NewCalls == 1 && envkit.Env.NewMedia[0] == reqType, "the envelope is of the requested format")
